@@ -324,29 +324,15 @@ def parse_getheaders_payload(payload: bytes) -> dict:
     parsed_payload = {
         "protocol_version": int.from_bytes(payload[:4], "little"),
     }
-    hash_count_byte = payload[4]
-    if hash_count_byte < 253:
-        hash_count = hash_count_byte
-        parsed_payload["hash_count"] = hash_count
-        index = 5  # to resume parsing payload below
-    elif hash_count_byte == 253:
-        hash_count = int.from_bytes(payload[5:7], "little")
-        parsed_payload["hash_count"] = hash_count
-        index = 7
-    elif hash_count_byte == 254:
-        hash_count = int.from_bytes(payload[7:11], "little")
-        parsed_payload["hash_count"] = hash_count
-        index = 11
-    elif hash_count_byte == 255:
-        hash_count = int.from_bytes(payload[11:19], "little")
-        parsed_payload["hash_count"] = hash_count
-        index = 19
+    hash_count, payload_prime = bits.parse_compact_size_uint(payload[4:])
+    parsed_payload["hash_count"] = hash_count
+    index = len(payload) - len(payload_prime)  # to resume parsing payload below
 
     if hash_count > 0:
         block_header_hashes = payload[index : index + hash_count * 32]
         parsed_payload["block_header_hashes"] = [
             block_header_hashes[32 * i : 32 * (i + 1)].hex()
-            for i in range(1, 1 + len(block_header_hashes) // 32)
+            for i in range(len(block_header_hashes) // 32)
         ]
         parsed_payload["stop_hash"] = payload[
             index + hash_count * 32 : index + hash_count * 32 + 32
